@@ -111,9 +111,9 @@ def run(ctx):
     fnd = findings()
     flag = any(f["flag"] == "cg_x0_unscaled" and f["present"] for f in fnd)
     rs = L.np_rng(ctx)
-    n_sys = ctx.budget(70, 500)
-    n_stop = ctx.budget(120, 900)
-    n_large = ctx.budget(40, 250)
+    n_sys = ctx.budget(140, 500)
+    n_stop = ctx.budget(240, 900)
+    n_large = ctx.budget(60, 250)
     n_region = ctx.budget(25, 150)
     nmax = ctx.budget(14, 24)
     cases = []
@@ -142,6 +142,7 @@ def run(ctx):
     stab = [L.stability(c, x0_unscaled=flag) for c in cases]
     stable = [i for i, (c, o, st) in enumerate(zip(cases, obs, stab))
               if o.get("ok") and st["same_steps"] and st["dev_x"] <= 1e-12 and st["dev_r"] <= 1e-10 and st["min_margin"] >= 1e-5]
+    margin_ties = sum(1 for o, st in zip(obs, stab) if o.get("ok") and st["same_steps"] and st["dev_x"] <= 1e-12 and st["dev_r"] <= 1e-10 and st["min_margin"] < 1e-5)
     items = [(cases[i], obs[i]) for i in stable]
     mism = []
     failing, near, err = L.eval_in_coq("c12", items, flag)
@@ -234,7 +235,7 @@ def run(ctx):
              "the contract oracle, n 1..%d in Coq, 30..%d oracle-only), 1-3 columns with norms spread over 12 orders and zero columns, x0 none/zero/random, "
              "5 preconditioner kinds, tol 1e-12..1e-1, max_iters 0..2n; non-trivial = n>=2 and at least one step; distinct by (system, tol, max_iters)" % (nmax, ctx.budget(120, 200)),
         samples=samples, mismatches=mism, findings=fnd,
-        extra=dict(compared_in_coq=len(items), near_tie=len(nearset), skipped_unstable=len(cases) - large - len(items),
+        extra=dict(compared_in_coq=len(items), near_tie=len(nearset) + margin_ties, skipped_unstable=len(cases) - large - len(items) - margin_ties,
                    krylov_optimum_checked=opt_checked + large_opt, krylov_optimum_worst_distance=opt_worst,
                    large_oracle_only=large, homogeneity_pairs=homog, inv_entry_point=invpath,
                    impl_exceptions=len(obs) - len(ok_obs),
